@@ -28,6 +28,8 @@ from ..evalexpr import evaluate, tables_equal, Unsupported
 from .common import space_sizes, fmt_diff, safe_call, has_spin
 
 ID = "C18"
+CASE_TIMEOUT = 900
+CHUNK = 8
 RULE = ("state = (expression built from the object zoo, prefactors, "
         "assumptions); non-trivial = the expression contains at least one "
         "tensor / delta / operator with indices")
